@@ -28,7 +28,7 @@ type tgFile struct {
 }
 
 var tgClasses = []string{"test", "failing", "oneline", "bracecomment", "failingoneline", "underscore", "unicode", "bigcomment", "disabled", "helper", "method", "captest", "commented", "blockline", "indented", "onelinecomment"}
-var tgKinds = []string{"src", "testish", "gotest", "exttest", "gold", "backup", "symsrc"}
+var tgKinds = []string{"src", "testish", "gotest", "exttest", "gold", "backup", "symsrc", "subdir"}
 
 func tgFileName(kind string, i int) string {
 	base := string(rune('a'+i)) + "file"
@@ -41,6 +41,8 @@ func tgFileName(kind string, i int) string {
 		return base + "_test.go"
 	case "gold":
 		return base + ".gold.v"
+	case "subdir":
+		return base + "dir" // a sub-directory (nested package / test data) holding inner.go
 	}
 	return base + ".go~"
 }
@@ -62,6 +64,8 @@ func tgRender(f tgFile, pkg string) string {
 		sb.WriteString("(* gold *)\n")
 	} else if f.Kind == "exttest" {
 		sb.WriteString("package " + pkg + "_test\n\n")
+	} else if f.Kind == "subdir" {
+		sb.WriteString("package inner\n\n")
 	} else {
 		sb.WriteString("package " + pkg + "\n\n")
 	}
@@ -232,10 +236,21 @@ func C18(c *ev.Ctx) {
 				_ = os.Symlink(filepath.Join(sh, f.Name), filepath.Join(root, f.Name))
 				continue
 			}
+			if f.Kind == "subdir" {
+				_ = os.MkdirAll(filepath.Join(root, f.Name), 0755)
+				_ = os.WriteFile(filepath.Join(root, f.Name, "inner.go"), []byte(tgRender(f, "semantics")), 0644)
+				continue
+			}
 			_ = os.WriteFile(filepath.Join(root, f.Name), []byte(tgRender(f, "semantics")), 0644)
 		}
+		// the package directory may be named through a symbolic link
+		arg := root
+		if i%5 == 2 {
+			arg = filepath.Join(c.Scratch, "tgdir", "link-to-package")
+			_ = os.Symlink(root, arg)
+		}
 		run := func(mode string) (string, error) {
-			out, err := exec.Command(tg, mode, root).CombinedOutput()
+			out, err := exec.Command(tg, mode, arg).CombinedOutput()
 			return string(out), err
 		}
 		goOut, err1 := run("-go")
